@@ -1781,7 +1781,7 @@ func (a *Authenticator) setupStreamEncryption(negotiation *SecurityNegotiation) 
 			// If ECDH fails, log but don't fail the entire handshake
 			// This allows tests with placeholder keys to work
 			slog.Debug(fmt.Sprintf("⚠️  CRYPTO: ECDH key exchange failed (continuing without encryption): %v", err), "destination", "cedar")
-			return nil
+			return a.continueWithoutEncryption(negotiation)
 		}
 
 		slog.Debug("🔐 CRYPTO: ECDH successful, deriving AES key...", "destination", "cedar")
@@ -1824,6 +1824,23 @@ func (a *Authenticator) setupStreamEncryption(negotiation *SecurityNegotiation) 
 	// Freeze it now so the application phase -- e.g. a large collector query stream --
 	// skips the per-frame SHA256. Idempotent on an already-frozen (resumed) session.
 	a.stream.FinalizeDigests()
+	return a.continueWithoutEncryption(negotiation)
+}
+
+// continueWithoutEncryption is reached when no session key could be established
+// (the peer sent no usable ECDH key, or no AES method is in common). The stream
+// stays plaintext, so the handshake may only proceed if encryption was neither
+// negotiated nor required by this endpoint's own policy; the reported flag is
+// reconciled with the stream's real state either way.
+func (a *Authenticator) continueWithoutEncryption(negotiation *SecurityNegotiation) error {
+	required := negotiation.Encryption
+	if a.config != nil && (a.config.Encryption == SecurityRequired || a.config.Integrity == SecurityRequired) {
+		required = true
+	}
+	if required && !a.stream.IsEncrypted() {
+		return fmt.Errorf("encryption is required but no session key could be established with the peer")
+	}
+	negotiation.Encryption = a.stream.IsEncrypted()
 	return nil
 }
 
